@@ -4,7 +4,8 @@
 (* Each endpoint has the send side of Session.tla (numbering, store, replay on ResendRequest) and   *)
 (* the receive side of Recovery.tla (deliver in sequence, ResendRequest on a gap, PossDup           *)
 (* re-delivery, GapFill).  Environment actions, exported as replay scripts:                         *)
-(*   Send(x)       application on x sends a message (only while connected)                          *)
+(*   Send(x)       application on x sends a message (only on an established session: connected and   *)
+(*                 this side has processed the peer's Logon since the last connect)                  *)
 (*   Deliver(x)    the head of the queue towards x is processed by x (may answer)                   *)
 (*   Drop          the connection breaks: everything in flight in both directions is lost           *)
 (*   Reconnect     new connection: Logon / Logon exchange numbered with each side's next number     *)
@@ -24,7 +25,8 @@ Other(x) == IF x = "a" THEN "b" ELSE "a"
 
 \* endpoint: ns, nr, store (seq -> id, application messages only), sentlog (kind per number),
 \* deliv (sequence of [id, dup]), st, rr (begin of outstanding request or 0), nsent (applications sent)
-EP0 == [ns |-> 1, nr |-> 1, store |-> [q \in {} |-> 0], kinds |-> <<>>, deliv |-> <<>>, st |-> "cont", rr |-> 0, nsent |-> 0]
+EP0 == [ns |-> 1, nr |-> 1, store |-> [q \in {} |-> 0], kinds |-> <<>>, deliv |-> <<>>, st |-> "cont", rr |-> 0, nsent |-> 0,
+        est |-> TRUE]     \* logon exchange completed on this side (applications send only on an established session)
 M(seq, kind, id, dup, arg) == [seq |-> seq, kind |-> kind, id |-> id, dup |-> dup, arg |-> arg]
 
 Bump(e) == IF "incr_always" \in Dev THEN [e EXCEPT !.nr = e.nr + 1] ELSE e
@@ -71,7 +73,7 @@ Rx(e, m) ==
 Step(inp) == Len(hist) < MaxSteps /\ hist' = Append(hist, inp)
 
 Send(x) ==
-    /\ up /\ ep[x].st # "dead" /\ ep[x].nsent < MaxSend /\ Step([op |-> "Send", x |-> x])
+    /\ up /\ ep[x].est /\ ep[x].st # "dead" /\ ep[x].nsent < MaxSend /\ Step([op |-> "Send", x |-> x])
     /\ LET id == (IF x = "a" THEN 100 ELSE 200) + ep[x].nsent + 1
            r == Emit([ep[x] EXCEPT !.nsent = @ + 1], "app", id, 0)
        IN /\ ep' = [ep EXCEPT ![x] = r.e]
@@ -81,13 +83,14 @@ Send(x) ==
 Deliver(x) ==
     /\ up /\ net[x] # <<>> /\ Step([op |-> "Deliver", x |-> x])
     /\ LET r == Rx(ep[x], Head(net[x]))
-       IN /\ ep' = [ep EXCEPT ![x] = r.e]
+           e2 == IF Head(net[x]).kind = "logon" /\ r.e.st # "dead" THEN [r.e EXCEPT !.est = TRUE] ELSE r.e
+       IN /\ ep' = [ep EXCEPT ![x] = e2]
           /\ net' = [net EXCEPT ![x] = Tail(@), ![Other(x)] = @ \o r.out]
     /\ UNCHANGED <<up, ndrop, nrst>>
 
 Drop == /\ up /\ ndrop < MaxDrops /\ Step([op |-> "Drop"])
         /\ up' = FALSE /\ ndrop' = ndrop + 1 /\ net' = [a |-> <<>>, b |-> <<>>]
-        /\ ep' = [x \in {"a", "b"} |-> IF ep[x].st = "dead" THEN ep[x] ELSE [ep[x] EXCEPT !.st = "cont", !.rr = 0]]
+        /\ ep' = [x \in {"a", "b"} |-> IF ep[x].st = "dead" THEN ep[x] ELSE [ep[x] EXCEPT !.st = "cont", !.rr = 0, !.est = FALSE]]
         /\ UNCHANGED nrst
 
 Reconnect ==
@@ -102,19 +105,19 @@ DeliverLogon ==
     /\ LET r == Rx(ep.b, Head(net.b))
            l == Emit(r.e, "logon", 0, 0)
        IN IF r.e.st = "dead" THEN /\ ep' = [ep EXCEPT !.b = r.e] /\ net' = [net EXCEPT !.b = Tail(@)]
-          ELSE /\ ep' = [ep EXCEPT !.b = l.e]
+          ELSE /\ ep' = [ep EXCEPT !.b = [l.e EXCEPT !.est = TRUE]]
                /\ net' = [net EXCEPT !.b = Tail(@), !.a = @ \o r.out \o <<l.m>>]      \* enforce() first, then the Logon reply
     /\ UNCHANGED <<up, ndrop, nrst>>
 
 Restart(x) ==
-    /\ ~up /\ nrst < MaxRestarts /\ ep[x].st # "dead" /\ Step([op |-> "Restart", x |-> x])
-    /\ nrst' = nrst + 1
+    /\ ~up /\ nrst.a + nrst.b < MaxRestarts /\ ep[x].st # "dead" /\ Step([op |-> "Restart", x |-> x])
+    /\ nrst' = [nrst EXCEPT ![x] = @ + 1]              \* per side: which process restarted matters to an implementation
     /\ ep' = IF "restart_forgets" \in Dev THEN [ep EXCEPT ![x].ns = 1, ![x].nr = 1] ELSE ep   \* recovered from the control record
     /\ UNCHANGED <<net, up, ndrop>>
 
 Init == /\ ep = [a |-> [EP0 EXCEPT !.ns = 2, !.nr = 2, !.kinds = <<"logon">>],
                  b |-> [EP0 EXCEPT !.ns = 2, !.nr = 2, !.kinds = <<"logon">>]]      \* after the first logon exchange
-        /\ net = [a |-> <<>>, b |-> <<>>] /\ up = TRUE /\ hist = <<>> /\ ndrop = 0 /\ nrst = 0
+        /\ net = [a |-> <<>>, b |-> <<>>] /\ up = TRUE /\ hist = <<>> /\ ndrop = 0 /\ nrst = [a |-> 0, b |-> 0]
 
 Next == \/ \E x \in {"a", "b"} : Send(x) \/ Restart(x)
         \/ (net.b # <<>> /\ Head(net.b).kind = "logon" /\ DeliverLogon)
